@@ -112,6 +112,50 @@ impl<I: Object> Object for Stream<I> {
         Stream::from_stream(s, resolve)
     }
 }
+/// the value of `/Filter` (a name, or an array of names) and of `/DecodeParms` (the parameters of the single filter, or
+/// one entry per filter in the order of `/Filter`: its parameters or null) for a list of filters
+fn filters_to_primitives(filters: &[StreamFilter], update: &mut impl Updater) -> Result<(Option<Primitive>, Option<Primitive>)> {
+    if filters.is_empty() {
+        return Ok((None, None));
+    }
+    let mut params = None;
+    let mut all_params = Vec::with_capacity(filters.len());
+    for f in filters.iter() {
+        all_params.push(match f {
+            StreamFilter::LZWDecode(ref p) => p.to_primitive(update)?,
+            StreamFilter::FlateDecode(ref p) => p.to_primitive(update)?,
+            StreamFilter::DCTDecode(ref p) => p.to_primitive(update)?,
+            StreamFilter::CCITTFaxDecode(ref p) => p.to_primitive(update)?,
+            StreamFilter::JBIG2Decode(ref p) => p.to_primitive(update)?,
+            _ => Primitive::Null
+        });
+    }
+    if all_params.iter().any(|p| !matches!(p, Primitive::Null)) {
+        params = Some(if all_params.len() == 1 {
+            all_params.pop().unwrap()
+        } else {
+            Primitive::Array(all_params)
+        });
+    }
+    let mut names = filters.iter().map(|filter| match filter {
+        StreamFilter::ASCIIHexDecode => "ASCIIHexDecode",
+        StreamFilter::ASCII85Decode => "ASCII85Decode",
+        StreamFilter::LZWDecode(ref _p) => "LZWDecode",
+        StreamFilter::FlateDecode(ref _p) => "FlateDecode",
+        StreamFilter::JPXDecode => "JPXDecode",
+        StreamFilter::DCTDecode(ref _p) => "DCTDecode",
+        StreamFilter::CCITTFaxDecode(ref _p) => "CCITTFaxDecode",
+        StreamFilter::JBIG2Decode(ref _p) => "JBIG2Decode",
+        StreamFilter::Crypt => "Crypt",
+        StreamFilter::RunLengthDecode => "RunLengthDecode",
+    })
+    .map(|s| Primitive::Name(s.into()));
+    let filter = match filters.len() {
+        1 => names.next().unwrap(),
+        _ => Primitive::Array(names.collect()),
+    };
+    Ok((Some(filter), params))
+}
 impl<I: ObjectWrite> Stream<I> {
     pub fn to_pdf_stream(&self, update: &mut impl Updater) -> Result<PdfStream> {
         let mut info = match self.info.info.to_primitive(update)? {
@@ -119,52 +163,23 @@ impl<I: ObjectWrite> Stream<I> {
             Primitive::Null => Dictionary::new(),
             p => bail!("stream info has to be a dictionary (found {:?})", p)
         };
-        let mut params = None;
-        if self.info.filters.len() > 0 {
-            // one entry per filter, in the order of /Filter: the parameters of that filter, or null
-            let mut all_params = Vec::with_capacity(self.info.filters.len());
-            for f in self.info.filters.iter() {
-                all_params.push(match f {
-                    StreamFilter::LZWDecode(ref p) => p.to_primitive(update)?,
-                    StreamFilter::FlateDecode(ref p) => p.to_primitive(update)?,
-                    StreamFilter::DCTDecode(ref p) => p.to_primitive(update)?,
-                    StreamFilter::CCITTFaxDecode(ref p) => p.to_primitive(update)?,
-                    StreamFilter::JBIG2Decode(ref p) => p.to_primitive(update)?,
-                    _ => Primitive::Null
-                });
-            }
-            if all_params.iter().any(|p| !matches!(p, Primitive::Null)) {
-                params = Some(if all_params.len() == 1 {
-                    all_params.pop().unwrap()
-                } else {
-                    Primitive::Array(all_params)
-                });
-            }
-            let mut filters = self.info.filters.iter().map(|filter| match filter {
-                StreamFilter::ASCIIHexDecode => "ASCIIHexDecode",
-                StreamFilter::ASCII85Decode => "ASCII85Decode",
-                StreamFilter::LZWDecode(ref _p) => "LZWDecode",
-                StreamFilter::FlateDecode(ref _p) => "FlateDecode",
-                StreamFilter::JPXDecode => "JPXDecode",
-                StreamFilter::DCTDecode(ref _p) => "DCTDecode",
-                StreamFilter::CCITTFaxDecode(ref _p) => "CCITTFaxDecode",
-                StreamFilter::JBIG2Decode(ref _p) => "JBIG2Decode",
-                StreamFilter::Crypt => "Crypt",
-                StreamFilter::RunLengthDecode => "RunLengthDecode",
-            })
-            .map(|s| Primitive::Name(s.into()));
-            match self.info.filters.len() {
-                0 => {},
-                1 => {
-                    info.insert("Filter", filters.next().unwrap().to_primitive(update)?);
-                }
-                _ => {
-                    info.insert("Filter", Primitive::array::<Primitive, _, _, _>(filters, update)?);
-                }
-            }
+        let (filter, params) = filters_to_primitives(&self.info.filters, update)?;
+        if let Some(filter) = filter {
+            info.insert("Filter", filter);
         }
         if let Some(para) = params {
             info.insert("DecodeParms", para);
+        }
+        // the external file holding the data, and the filters that apply to it
+        if let Some(ref file) = self.info.file {
+            info.insert("F", file.to_primitive(update)?);
+        }
+        let (file_filter, file_params) = filters_to_primitives(&self.info.file_filters, update)?;
+        if let Some(filter) = file_filter {
+            info.insert("FFilter", filter);
+        }
+        if let Some(para) = file_params {
+            info.insert("FDecodeParms", para);
         }
 
         let inner = match self.inner_data {
@@ -288,7 +303,7 @@ impl<T: Object> Object for StreamInfo<T> {
             dict.remove("FFilter").unwrap_or(Primitive::Null),
             resolve)?;
 
-        let file_decode_params = Vec::<Dictionary>::from_primitive(
+        let file_decode_params = Vec::<Option<Dictionary>>::from_primitive(
             dict.remove("FDecodeParms").unwrap_or(Primitive::Null),
             resolve)?;
 
@@ -305,8 +320,8 @@ impl<T: Object> Object for StreamInfo<T> {
         }
         for (i, filter) in file_filters.iter().enumerate() {
             let params = match file_decode_params.get(i) {
-                Some(params) => params.clone(),
-                None => Dictionary::default(),
+                Some(Some(params)) => params.clone(),
+                _ => Dictionary::default(),
             };
             new_file_filters.push(StreamFilter::from_kind_and_params(filter, params, resolve)?);
         }
